@@ -1202,10 +1202,26 @@ func main() {
 		rep = append(rep, "MISSING widened function "+m+" not found in the source")
 	}
 	rep = append(rep, gw.rep...)
+	// the same rule as Spec/EffectTypes.v init_only (the Coq side decides; this is only for the report)
+	var initOnly func(f *ssa.Function, depth int) bool
+	initOnly = func(f *ssa.Function, depth int) bool {
+		if isInit(f) {
+			return true
+		}
+		if depth > len(a.fns) || exported(f) || addrTaken[f] {
+			return false
+		}
+		for c := range callers[f] {
+			if !initOnly(c, depth+1) {
+				return false
+			}
+		}
+		return true
+	}
 	for _, g := range allGlobals {
 		for f := range writers[g] {
-			if !isInit(f) {
-				rep = append(rep, fmt.Sprintf("GLOBAL-WRITER %s is written by %s (%s)", short(g.String()), short(f.String()), rel(f.Pos())))
+			if !initOnly(f, 0) {
+				rep = append(rep, fmt.Sprintf("GLOBAL-WRITER %s is written by %s (%s), which does not run from init alone", short(g.String()), short(f.String()), rel(f.Pos())))
 			}
 		}
 	}
